@@ -517,6 +517,20 @@ fn main() {
             continue;
         }
         ledger::take_events();
+        // Resolve `#k` ordinals first, so that the echoed op is resolved even when the op panics.
+        let resolved: String = line
+            .split_whitespace()
+            .map(|tok| {
+                if tok.starts_with('#') {
+                    let (i, g) = parse_target(tok, &st.issued);
+                    format!("{}:{}", i, g)
+                } else {
+                    tok.to_string()
+                }
+            })
+            .collect::<Vec<_>>()
+            .join(" ");
+        let line: &str = &resolved;
         let r = catch_unwind(AssertUnwindSafe(|| {
             let mut o = String::new();
             apply(&mut st, line, &mut o);
